@@ -386,3 +386,24 @@ Example ex_flush :
   | Panic => False
   end.
 Proof. vm_compute. repeat split. Qed.
+
+(* a histogram timer: "gsd_histogram:10_x_20_30" with limit 2 keeps the bounds 10 and 20 *)
+Definition ex_pf (s : str) : option bound :=
+  if str_eqb s (bs "10") then Some (BFin 4621819117588971520)
+  else if str_eqb s (bs "20") then Some (BFin 4626322717216342016)
+  else if str_eqb s (bs "30") then Some (BFin 4629137466983448576)
+  else None.
+
+Example ex_histogram :
+  let tags := [bs "env:prod"; bs "gsd_histogram:10_x_20_30"] in
+  has_histogram_tag tags = true /\ short_tags tags /\
+  spec_bounds ex_pf tags 2 = [BFin 4621819117588971520; BFin 4626322717216342016] /\
+  match flush_timer qc_ops ex_pf go_rank false ex_cfg (fresh qc_ops (map Qc_of_Z [12; 2; 20; 25; 7]) (Qc_of_Z 5) tags HNil) with
+  | Ok t => t_hist t = HMap [(BFin 4621819117588971520, 2); (BFin 4626322717216342016, 4); (BPInf, 5)] /\ t_count t = 0
+  | Panic => False
+  end.
+Proof.
+  split; [reflexivity|]. split; [|split; [reflexivity|]].
+  - intros tag [<-|[<-|[]]]; reflexivity.
+  - vm_compute. split; reflexivity.
+Qed.
